@@ -424,6 +424,9 @@ func c13UncleHeaderStub(a *Aquahash, chain consensus.ChainReader, header, parent
 // HF5), each one not yet included, not an ancestor, not the block, child of
 // one of the 7 ancestors other than the block's parent, and header-valid.
 func VerifC13_Uncles() {
+	if !vs.Symbolic() {
+		return // depends on engine-only stubs (suite: no_native); nothing to run natively
+	}
 	net := vs.Choice("net", vs.Param("nets"))
 	cfg, sched := c13Builtin(net)
 	// heights: above the hard-coded historical exceptions (blocks <= 15008); on
@@ -513,6 +516,9 @@ func VerifC13_Uncles() {
 // does when the preceding headers of the batch have been verified and stored
 // one by one.  verifyHeader itself is a recording stub (suite override).
 func VerifC13_BatchWorker() {
+	if !vs.Symbolic() {
+		return // depends on engine-only stubs (suite: no_native); nothing to run natively
+	}
 	cfg, _ := c13Builtin(0)
 	n0 := []uint64{1, 2, 3, 4, 1000}[vs.Choice("first", 5)]
 	L := vs.Param("batch")
